@@ -924,35 +924,34 @@ fn main() {
 
     // (A) exhaustive — sets: all 64 states over 3 items
     let set_states: Vec<St> = (0..64).map(|c| set_state(3, c)).collect();
-    let mut exh = BTreeMap::new();
+    let mut exh: BTreeMap<String, u64> = BTreeMap::new();
     if tier != Tier::Miri {
-        exh.insert("set: multisets of 2 of 64 states", exhaustive(&mut rep, VKind::Unit, "set-exh2", &set_states, 2, &[same, vec_alt, delta_alt]));
+        exh.insert("set: multisets of 2 of 64 states".into(), exhaustive(&mut rep, VKind::Unit, "set-exh2", &set_states, 2, &[same, vec_alt, delta_alt], 1));
         let valid27: Vec<St> = set_states.iter().copied().filter(|s| s.valid()).collect();
         if tier == Tier::Quick {
-            exh.insert("set: multisets of 3 of the 27 valid states", exhaustive(&mut rep, VKind::Unit, "set-exh3", &valid27, 3, &[same]));
+            exh.insert("set: multisets of 3 of the 27 valid states".into(), exhaustive(&mut rep, VKind::Unit, "set-exh3", &valid27, 3, &[same], 2));
         } else {
-            exh.insert("set: multisets of 3 of 64 states", exhaustive(&mut rep, VKind::Unit, "set-exh3", &set_states, 3, &[same, delta_alt]));
+            exh.insert("set: multisets of 3 of 64 states".into(), exhaustive(&mut rep, VKind::Unit, "set-exh3", &set_states, 3, &[same, delta_alt], 2));
         }
-        // maps: 3 keys x value codes {0(bottom),1,2}: 8^3 = 512 states, pairs
         for kind in [VKind::Max, VKind::SetU] {
-            let ms: Vec<St> = (0..512).map(|c| map_state(3, 3, c)).collect();
+            let kn = kind_name(kind);
             let alts: &[&[u8]] = if tier == Tier::Quick { &[same, delta_alt] } else { &[same, vec_alt, delta_alt] };
-            exh.insert(
-                if kind == VKind::Max { "map-max: multisets of 2 of 512 states" } else { "map-setunion: multisets of 2 of 512 states" },
-                exhaustive(&mut rep, kind, "map-exh2", &ms, 2, alts),
-            );
+            // 2 keys x value codes {0(bottom),1,2}: 8^2 = 64 states — all backends
+            let ms64: Vec<St> = (0..64).map(|c| map_state(2, 3, c)).collect();
+            exh.insert(format!("{kn}: multisets of 2 of 64 states (2 keys)"), exhaustive(&mut rep, kind, "map-exh2", &ms64, 2, alts, 1));
+            // 3 keys x value codes {0,1,2}: 8^3 = 512 states — HashSet and Roaring backends only (FST rebuild cost)
+            let ms512: Vec<St> = (0..512).map(|c| map_state(3, 3, c)).collect();
+            exh.insert(format!("{kn}: multisets of 2 of 512 states (3 keys, no FST)"), exhaustive(&mut rep, kind, "map-exh2", &ms512, 2, alts, 0));
             if tier == Tier::Thorough {
-                // 2 keys x all four value codes: 10^2 = 100 states, triples
-                let ms2: Vec<St> = (0..100).map(|c| map_state(2, 4, c)).collect();
-                exh.insert(
-                    if kind == VKind::Max { "map-max: multisets of 3 of 100 states" } else { "map-setunion: multisets of 3 of 100 states" },
-                    exhaustive(&mut rep, kind, "map-exh3", &ms2, 3, &[same]),
-                );
+                exh.insert(format!("{kn}: multisets of 3 of 64 states (2 keys)"), exhaustive(&mut rep, kind, "map-exh3", &ms64, 3, &[same], 2));
+                // 2 keys x all four value codes: 10^2 = 100 states, triples, no FST
+                let ms100: Vec<St> = (0..100).map(|c| map_state(2, 4, c)).collect();
+                exh.insert(format!("{kn}: multisets of 3 of 100 states (2 keys x 4 codes, no FST)"), exhaustive(&mut rep, kind, "map-exh3", &ms100, 3, &[same], 0));
             }
         }
     } else {
         let few: Vec<St> = [1usize, 2, 6, 9, 24, 33].iter().map(|&c| set_state(3, c)).collect();
-        exh.insert("set: multisets of 2 of 6 states", exhaustive(&mut rep, VKind::Unit, "set-exh2", &few, 2, &[same, delta_alt]));
+        exh.insert("set: multisets of 2 of 6 states".into(), exhaustive(&mut rep, VKind::Unit, "set-exh2", &few, 2, &[same, delta_alt], 1));
     }
     rep.extra("exhaustive_groups", json!(exh));
 
@@ -980,12 +979,12 @@ fn main() {
             rng.shuffle(&mut perms);
             perms.truncate(cap);
         }
-        let mut plans: Vec<Plan> = perms.iter().map(|p| seq_plan(p, &alts)).collect();
-        for _ in 0..2 {
-            let p = rng.choose(&perms).clone();
-            plans.push(tree_plan(&p, &alts));
-        }
-        check_group(&mut rep, &Group { kind, fam: if invalid { "random-invalid-inputs" } else { "random" }, states: &states, plans: &plans });
+        // plan 0 and the last plan are tree-shaped; the FST backends run 4 of the plans (incl. plan 0)
+        let mut plans: Vec<Plan> = vec![tree_plan(rng.choose(&perms), &alts)];
+        plans.extend(perms.iter().map(|p| seq_plan(p, &alts)));
+        plans.push(tree_plan(rng.choose(&perms), &alts));
+        let fst_every = plans.len().div_ceil(4);
+        check_group(&mut rep, &Group { kind, fam: if invalid { "random-invalid-inputs" } else { "random" }, states: &states, plans: &plans, fst_every });
     }
 
     // (C) order and equality of the HashSet-backed types against the merge-induced order
